@@ -23,6 +23,8 @@ TABLE = {
  "names bound by import inside a function are local variables": ("C03", "def f(): import math as x; def g(): nonlocal x ... raised NameError"),
  "a name declared global in the enclosing function is global in inner functions": ("C03", "g declares 'global x' and defines h reading x while an outer f has a local x: h raised NameError instead of reading the global"),
  "a bound method keeps its instance alive": ("C03", "class A: def m(self): return self.z ; A().m() raised AttributeError (self was None)"),
+ "trigger expressions see the values other variables had when the event occurred": ("C04", "burst [A1, B1] with no loop callback in between, @state_trigger(\"pyscript.a == '1' and pyscript.b == '1'\"): the A1 event was evaluated with b's later value '1' (extra run); with b deleted meanwhile the evaluation raised NameError (missing run)"),
+ "with watch=, a state trigger also captures the expression's other variables per event": ("C04", "burst [A1, B1], @state_trigger(\"pyscript.a == '1' and pyscript.b == '1'\", watch=['pyscript.a']): the A1 event was evaluated with b's later value (extra run)"),
 }
 log = subprocess.run(["git", "-C", "/repo", "log", "--reverse", "--format=%h %s"], capture_output=True, text=True).stdout.strip().split("\n")
 fixed = []
